@@ -28,6 +28,7 @@ ASSUMPTIONS = ["virtual time; commands are delivered in one segment (MSS 1460) s
                "mapping of configured values to channel/direction as documented: idle_timeout = control reads, socket_timeout = "
                "everything else"]
 REQUIRED_MONITORS = ["release_time", "no_release_without_timeout", "wait_future_425", "chatty_survives", "ledger_after_release"]
+ANCHOR_FUNCTIONS = ['common.py:_with_timeout.<locals>.decorator.<locals>.wrapper', 'server.py:ConnectionConditions.__call__.<locals>.wrapper']
 EXHAUSTIVE = {"quick": False, "thorough": True}
 
 LAT = 0.001
